@@ -54,6 +54,7 @@ var (
 	errNoAuthenticator      = errors.New("packet does not contain an authenticator")
 	errNoCookies            = errors.New("packet does not contain cookies")
 	errNoUniqueID           = errors.New("packet does not contain a unique identifier")
+	errShortBuffer          = errors.New("packet exceeds maximum NTS packet length")
 	errShortUniqueID        = errors.New("UniqueIdentifier.ID < 32 bytes")
 	errUnexpectedExtHdrLen  = errors.New("unexpected extension header length")
 	errUnexpectedExtHdrType = errors.New("unexpected extension header type")
@@ -101,38 +102,41 @@ func NewRequestPacket(ntskeData ntske.Data) (pkt Packet, uniqueid []byte) {
 
 // EncodePacket encodes pkt to a byte slice. It is expected that
 // the first 48 bytes of the slice already contain a NTP packet.
-// NTS authentication is added here.
-func EncodePacket(b *[]byte, pkt *Packet) {
+// NTS authentication is added here. An error is returned if the
+// packet cannot be encoded, e.g., because it would exceed MaxPacketLen.
+func EncodePacket(b *[]byte, pkt *Packet) error {
 	if len(*b) != ntpPacketLen {
 		panic("unexpected NTP header")
 	}
-	if cap(*b) < MaxPacketLen {
-		*b = append(make([]byte, 0, MaxPacketLen), (*b)...)
+	buf := *b
+	if cap(buf) < MaxPacketLen {
+		buf = append(make([]byte, 0, MaxPacketLen), buf...)
 	}
-	*b = (*b)[:MaxPacketLen]
+	buf = buf[:MaxPacketLen]
 
 	pos := ntpPacketLen
-	pos, err := pkt.UniqueID.pack(*b, pos)
+	pos, err := pkt.UniqueID.pack(buf, pos)
 	if err != nil {
-		panic(err)
+		return err
 	}
 	for _, c := range pkt.Cookies {
-		pos, err = c.pack(*b, pos)
+		pos, err = c.pack(buf, pos)
 		if err != nil {
-			panic(err)
+			return err
 		}
 	}
 	for _, c := range pkt.CookiePlaceholders {
-		pos, err = c.pack(*b, pos)
+		pos, err = c.pack(buf, pos)
 		if err != nil {
-			panic(err)
+			return err
 		}
 	}
-	pos, err = pkt.Auth.pack(*b, pos)
+	pos, err = pkt.Auth.pack(buf, pos)
 	if err != nil {
-		panic(err)
+		return err
 	}
-	*b = (*b)[:pos]
+	*b = buf[:pos]
+	return nil
 }
 
 // DecodePacket decodes a byte slice to a Packet. Authentication is not
@@ -340,6 +344,9 @@ func (u UniqueIdentifier) pack(buf []byte, pos int) (int, error) {
 	}
 
 	newlen := (len(u.ID) + 3) & ^3
+	if len(buf)-pos < 4+newlen {
+		return 0, errShortBuffer
+	}
 	padding := make([]byte, newlen-len(u.ID))
 
 	u.extHdr.Type = extUniqueIdentifier
@@ -386,6 +393,9 @@ type Cookie struct {
 func (c Cookie) pack(buf []byte, pos int) (int, error) {
 	origlen := len(c.Cookie)
 	newlen := (origlen + 3) & ^3
+	if len(buf)-pos < 4+newlen {
+		return 0, errShortBuffer
+	}
 	padding := make([]byte, newlen-origlen)
 
 	c.extHdr.Type = extCookie
@@ -422,6 +432,9 @@ type CookiePlaceholder struct {
 func (c CookiePlaceholder) pack(buf []byte, pos int) (int, error) {
 	origlen := len(c.Cookie)
 	newlen := (origlen + 3) & ^3
+	if len(buf)-pos < 4+newlen {
+		return 0, errShortBuffer
+	}
 	padding := make([]byte, newlen-origlen)
 
 	c.extHdr.Type = extCookiePlaceholder
@@ -457,6 +470,10 @@ type Authenticator struct {
 }
 
 func (a Authenticator) pack(buf []byte, pos int) (int, error) {
+	if len(buf) < pos {
+		return 0, errShortBuffer
+	}
+
 	aessiv, err := miscreant.NewAEAD("AES-CMAC-SIV", a.Key, 16)
 	if err != nil {
 		return 0, err
@@ -475,6 +492,10 @@ func (a Authenticator) pack(buf []byte, pos int) (int, error) {
 	a.CipherText = aessiv.Seal(nil, a.Nonce, a.PlainText, buf[:pos])
 	cipherTextLen := uint16(len(a.CipherText))
 	cipherpadlen := (-cipherTextLen) % 4
+
+	if len(buf)-pos < 4+2+2+len(a.Nonce)+int(noncepadlen)+len(a.CipherText)+int(cipherpadlen) {
+		return 0, errShortBuffer
+	}
 
 	a.extHdr.Type = extAuthenticator
 	a.extHdr.Length = 4 + 2 + 2 + nonceLen + noncepadlen + cipherTextLen + cipherpadlen
